@@ -215,18 +215,19 @@ theorem putUvarint_size (x : Nat) (hx : x < 2 ^ 63) : 1 ≤ (putUvarint x).size 
 theorem get_append_right' (a b : ByteArray) (i : Nat) : Lzma2.get (a ++ b) (a.size + i) = Lzma2.get b i := by
   unfold Lzma2.get; rw [get!_append_right]
 
-theorem readUvarint_go_put (b : ByteArray) (pos lim : Nat) : ∀ (fuel x i acc s : Nat),
-    1 ≤ fuel → x < 128 ^ (fuel - 1) → i + fuel = 10 →
+theorem readUvarint_go_put (b : ByteArray) (pos lim : Nat) : ∀ (fuel rf x i acc s : Nat),
+    1 ≤ fuel → fuel ≤ rf → x < 128 ^ (fuel - 1) → i + fuel = 10 →
     (∀ j, j < (putUvarint.go fuel x ByteArray.empty).size →
       get b (pos + i + j) = get (putUvarint.go fuel x ByteArray.empty) j) →
     pos + i + (putUvarint.go fuel x ByteArray.empty).size ≤ lim →
-    readUvarint.go b pos lim fuel i acc s =
+    readUvarint.go b pos lim rf i acc s =
       .ok (acc + x * 2 ^ s) (i + (putUvarint.go fuel x ByteArray.empty).size) := by
   intro fuel
   induction fuel with
-  | zero => intro x i acc s h; omega
+  | zero => intro rf x i acc s h; omega
   | succ f ih =>
-    intro x i acc s _ hx hi hg hlim
+    intro rf x i acc s _ hrf hx hi hg hlim
+    obtain ⟨rf', rfl⟩ : ∃ rf', rf = rf' + 1 := ⟨rf - 1, by omega⟩
     rw [putUvarint.go] at hg hlim ⊢
     rw [readUvarint.go]
     simp only [Nat.add_sub_cancel] at hx
@@ -245,10 +246,10 @@ theorem readUvarint_go_put (b : ByteArray) (pos lim : Nat) : ∀ (fuel x i acc s
         have := hg 0 (by omega)
         rw [Nat.add_zero, get_append_left (by rw [hPs]; omega), get_single _ (by omega)] at this
         exact this
-      rw [if_neg (by omega)]
+      rw [if_neg (by omega), if_neg (by omega)]
       simp only [g0]
       rw [if_neg (by omega)]
-      have hih := ih (x / 128) (i + 1) (acc + (x % 128 + 128) % 128 * 2 ^ s) (s + 7) (by omega)
+      have hih := ih rf' (x / 128) (i + 1) (acc + (x % 128 + 128) % 128 * 2 ^ s) (s + 7) (by omega) (by omega)
         (by
           obtain ⟨f', rfl⟩ : ∃ f', f = f' + 1 := ⟨f - 1, by omega⟩
           simp only [Nat.add_sub_cancel]
@@ -280,7 +281,7 @@ theorem readUvarint_go_put (b : ByteArray) (pos lim : Nat) : ∀ (fuel x i acc s
         have := hg 0 (by omega)
         rw [Nat.add_zero, get_single _ (by omega)] at this
         exact this
-      rw [if_neg (by omega)]
+      rw [if_neg (by omega), if_neg (by omega)]
       simp only [g0]
       rw [if_pos (by omega)]
       rw [if_neg]
@@ -296,7 +297,7 @@ theorem readUvarint_put_get (b : ByteArray) (pos lim x : Nat) (hx : x < 2 ^ 63)
     (hlim : pos + (putUvarint x).size ≤ lim) :
     readUvarint b pos lim = .ok x (putUvarint x).size := by
   unfold readUvarint
-  have := readUvarint_go_put b pos lim 10 x 0 0 0 (by omega)
+  have := readUvarint_go_put b pos lim 10 11 x 0 0 0 (by omega) (by omega)
     (by have : (128:Nat) ^ 9 = 2 ^ 63 := by norm_num
         simp only [Nat.add_one_sub_one]; omega) (by omega)
     (by intro j hj; rw [Nat.add_zero]; exact hg j hj) (by rw [Nat.add_zero]; exact hlim)
@@ -1291,19 +1292,19 @@ open Lzma Lzma2 Rc Spec
 
 /-! ### index records -/
 
-theorem recLoop_emit (recs : Array (Nat × Nat)) (inp : ByteArray) :
-    ∀ (l : List (Nat × Nat)) (i : Nat) (a c : ByteArray), inp = a ++ recsBytes l ++ c →
-      (∀ j (hj : j < l.length), recs.getD (i + j) (0, 0) = l[j]) →
+theorem recLoop_emit (inp : ByteArray) :
+    ∀ (l : List (Nat × Nat)) (acc : Array (Nat × Nat)) (a c : ByteArray), inp = a ++ recsBytes l ++ c →
       (∀ x ∈ l, x.1 < 2 ^ 63 ∧ x.2 < 2 ^ 63) →
-      readTail.recLoop recs inp l.length a.size i = some (a.size + (recsBytes l).size, .eof) := by
+      ∃ parsed, readTail.recLoop inp l.length a.size acc = some (a.size + (recsBytes l).size, .eof, parsed) ∧
+        parsed.toList = acc.toList ++ l := by
   intro l
   induction l with
   | nil =>
-    intro i a c _ _ _
+    intro acc a c _ _
     rw [List.length_nil, readTail.recLoop.eq_1]
-    rfl
+    exact ⟨acc, rfl, by simp⟩
   | cons x l ih =>
-    intro i a c hinp hget hb
+    intro acc a c hinp hb
     rw [List.length_cons, readTail.recLoop.eq_2]
     obtain ⟨hx1, hx2⟩ := hb x (List.mem_cons_self)
     have d1 : inp = a ++ putUvarint x.1 ++ (putUvarint x.2 ++ recsBytes l ++ c) := by
@@ -1321,18 +1322,14 @@ theorem recLoop_emit (recs : Array (Nat × Nat)) (inp : ByteArray) :
     rw [e1, readUvarint_of_eq d2 hx2 inp.size (by omega)]
     simp only []
     rw [if_neg (by omega)]
-    have hg0 := hget 0 (by simp)
-    rw [Nat.add_zero] at hg0
-    rw [hg0]
-    simp only [List.getElem_cons_zero, ne_eq, not_true_eq_false, if_false]
     have e2 : (a ++ putUvarint x.1).size + (putUvarint x.2).size = (a ++ putUvarint x.1 ++ putUvarint x.2).size := by
       rw [ByteArray.size_append (a := a ++ putUvarint x.1)]
-    rw [e2, ih (i + 1) _ c d3 (by
-        intro j hj
-        have := hget (j + 1) (by simp; omega)
-        rw [show i + 1 + j = i + (j + 1) by omega, this]
-        simp) (fun y hy => hb y (List.mem_cons_of_mem _ hy))]
-    simp only [recsBytes, ByteArray.size_append, Nat.add_assoc]
+    rw [e2]
+    obtain ⟨parsed, h1, h2⟩ := ih (acc.push (x.1, x.2)) _ c d3 (fun y hy => hb y (List.mem_cons_of_mem _ hy))
+    refine ⟨parsed, ?_, ?_⟩
+    · rw [h1]
+      simp only [recsBytes, ByteArray.size_append, Nat.add_assoc]
+    · rw [h2]; simp
 
 
 /-! ### index and footer -/
@@ -1451,12 +1448,7 @@ theorem readTail_emit (flags : Nat) (recs : Array (Nat × Nat))
   rw [hpos, eN, readUvarint_of_eq dN hn r.inp.size (by rw [← eN, hkk]; omega)]
   simp only [ne_eq, not_true_eq_false, if_false]
   rw [hkk, ← eN, eR]
-  have hrl := recLoop_emit recs r.inp L 0 _ _ dR (by
-      intro j hj
-      have hj' : j < recs.size := by omega
-      subst hL
-      simp [Array.getD, hj']
-      ) hrec
+  obtain ⟨parsed, hrl, hpl⟩ := recLoop_emit r.inp L #[] _ _ dR hrec
   rw [hLn] at hrl
   rw [hrl]
   simp only []
@@ -1472,7 +1464,7 @@ theorem readTail_emit (flags : Nat) (recs : Array (Nat × Nat))
   rw [if_neg (by omega)]
   have c1 : (Hash.crc32 r.inp pre.size (pre.size + IP.size)).toNat = le32At r.inp (pre.size + IP.size) := by
     rw [crc32_of_eq dP, hcrc, eK1, le32At_of_eq dK1]
-  rw [if_neg (by rw [c1]; simp), if_neg (by omega)]
+  rw [if_neg (by rw [c1]; simp), if_neg (by rw [hpl, hL]; simp), if_neg (by omega)]
   -- footer magic
   have hmag : sliceEq r.inp (pre.size + IP.size + 4 + 10) footerMagic = true := by
     apply sliceEq_of
